@@ -39,10 +39,12 @@ func init() {
 			{ID: "R03.14", Template: "T-CONSULT", Text: "the DWARF reader nil-tests what debug/dwarf hands out and bounds runs of null entries (genuine defects found and fixed)", Min: 3},
 			{ID: "R03.15", Template: "T-CONSULT", Text: "the validator compares a tail call's callee results with the function's results (genuine defect found and fixed)", Min: 2},
 			{ID: "R03.16", Template: "T-TAINT", Text: "no string concatenation in loops over input-sized data on the decode path (genuine defect found and fixed: FunctionType.key)", Min: 1},
+			{ID: "R03.17", Template: "T-OWN", Text: "a scratch buffer (reset-and-refilled slice field) is used only by the methods of its struct", Min: 1},
 			{ID: "R03.8", Template: "T-CONSULT", Text: "decoder reads cannot be empty reads at the end of the input (genuine defect found and fixed: trailing custom section with an empty payload)", Min: 2},
 		},
 		Run: runC03,
 		Controls: []core.Control{
+			{Name: "br-table-label-types-in-scratch-space", File: "internal/wasm/func_validation.go", Old: "\t\t\t\tdefaultLabelType = make([]ValueType, len(lnLabel.blockType.Results))\n\t\t\t\tcopy(defaultLabelType, lnLabel.blockType.Results)", New: "\t\t\t\tdefaultLabelType = append(valueTypeStack.requireStackValuesTmp[:0], lnLabel.blockType.Results...)", Rule: "R03.17", Substr: "requireStackValuesTmp"},
 			{Name: "passive-elements-bounds-checked", File: "internal/wasm/table.go", Old: "\t\t\tif !elem.IsActive() {\n\t\t\t\tcontinue // only active segments are written to a table at instantiation.\n\t\t\t}\n", New: "", Rule: "R03.12", Substr: "buildTables"},
 			{Name: "misc-subopcode-single-byte", File: "internal/engine/interpreter/signature.go", Old: "switch miscOp := wasm.OpcodeMisc(miscOp32); miscOp {", New: "switch miscOp := c.body[c.pc+1]; miscOp {", Rule: "R03.13", Substr: "wasmOpcodeSignature"},
 			{Name: "dwarf-line-file-unchecked", File: "internal/wasmdebug/dwarf.go", Old: "\tif le.File == nil {\n", New: "\tif le.Line < 0 {\n", Rule: "R03.14", Substr: "le.File"},
